@@ -394,3 +394,11 @@ Proof.
     destruct (run_ops (mkW a1 projs1) ops) as [wa xa], (run_ops (mkW b1 projs1) ops) as [wb xb].
     destruct IH as [I1 [I2 I3]]. subst. auto.
 Qed.
+
+(** while only Parse calls have been made, the full-name extractor is not built
+    yet: it will be built from all the specific name keys recorded so far *)
+Lemma parser_after_fullext calls : pp_fullext (parser_after calls) = None.
+Proof.
+  rewrite parser_after_specs.
+  destruct (fold_parser_effect (flat_map call_specs calls) new_parser) as [_ [_ [_ [_ H]]]]. exact H.
+Qed.
